@@ -17,6 +17,8 @@ mod query_lock_manager {
 
     /// same module, so the private field is visible: identity of the lock object behind an instance
     pub fn same_lock(a: &OwnedLock, b: &OwnedLock) -> bool { Arc::ptr_eq(&a.0, &b.0) }
+    /// is there an entry for `id` in the table right now?
+    pub fn is_resident(m: &QueryLockManager, id: &QueryID) -> bool { m.hot.get_map(id, |_| ()).is_some() }
     /// lock it (write) without blocking, as a task that got past `write_owned().await` would hold it
     pub fn try_lock_exclusive(a: &OwnedLock) -> Option<tokio::sync::OwnedRwLockWriteGuard<()>> { a.0.clone().try_write_owned().ok() }
 }
@@ -28,30 +30,34 @@ struct Holder { inst: OwnedLock, guard: Option<tokio::sync::OwnedRwLockWriteGuar
 fn history(rng: &mut Rng, cap: u64, steps: usize) -> u64 {
     let m = QueryLockManager::new(cap);
     let nq = 6u64;
-    let mut held: Vec<Vec<Holder>> = (0..nq).map(|_| Vec::new()).collect();
+    // a rolling window of query ids: over a history hundreds of DIFFERENT queries are held through eviction pressure
+    let mut base_q = 0u64;
+    let mut held: std::collections::BTreeMap<u64, Vec<Holder>> = std::collections::BTreeMap::new();
     let mut log: Vec<String> = vec![format!("capacity={cap}")];
     let mut fresh = 1_000_000u64;
     let mut checks = 0u64;
-    for _ in 0..steps {
-        let q = rng.next() % nq;
+    for step in 0..steps {
+        if step % 4 == 3 { base_q += 1; }
+        let q = base_q + rng.next() % nq;
         match rng.next() % 8 {
             0 | 1 | 2 => {
                 // a task obtains the instance of q; sometimes it locks it right away, sometimes it has not locked it yet
                 let inst = m.get_lock_instance(&QueryID(q));
-                if let Some(first) = held[q as usize].first() {
+                if let Some(first) = held.get(&q).and_then(|v| v.first()) {
                     checks += 1;
                     if !same_lock(&first.inst, &inst) {
                         report_found("two tasks asking for the lock of the same query got DIFFERENT lock objects", &log[log.len().saturating_sub(40)..].join("; "), &format!("get_lock_instance({q}) returned a fresh lock while another task still holds an instance of query {q}"), "the same lock object");
                     }
                 }
-                let guard = if rng.next() % 2 == 0 && held[q as usize].iter().all(|h| h.guard.is_none()) { try_lock_exclusive(&inst) } else { None };
+                let guard = if rng.next() % 2 == 0 && held.get(&q).map(|v| v.iter().all(|h| h.guard.is_none())).unwrap_or(true) { try_lock_exclusive(&inst) } else { None };
                 log.push(format!("task takes instance of q{q}{}", if guard.is_some() { " and locks it" } else { " (not locked yet)" }));
-                held[q as usize].push(Holder { inst, guard });
+                held.entry(q).or_default().push(Holder { inst, guard });
             }
             3 => {
-                if !held[q as usize].is_empty() {
-                    let i = (rng.next() % held[q as usize].len() as u64) as usize;
-                    held[q as usize].remove(i);
+                if held.get(&q).map(|v| !v.is_empty()).unwrap_or(false) {
+                    let v = held.get_mut(&q).unwrap();
+                    let i = (rng.next() % v.len() as u64) as usize;
+                    v.remove(i);
                     log.push(format!("a task releases its instance of q{q}"));
                 }
             }
@@ -63,7 +69,7 @@ fn history(rng: &mut Rng, cap: u64, steps: usize) -> u64 {
             }
             _ => {
                 // a held-but-unlocked instance gets locked now
-                if let Some(h) = held[q as usize].iter_mut().find(|h| h.guard.is_none()) {
+                if let Some(h) = held.get_mut(&q).and_then(|v| v.iter_mut().find(|h| h.guard.is_none())) {
                     let others_locked = false;
                     if !others_locked { h.guard = try_lock_exclusive(&h.inst); }
                     log.push(format!("a task that held an instance of q{q} locks it now"));
@@ -72,7 +78,7 @@ fn history(rng: &mut Rng, cap: u64, steps: usize) -> u64 {
         }
         // the clause, for every query some task holds
         for q in 0..nq {
-            if let Some(first) = held[q as usize].first() {
+            if let Some(first) = held.get(&q).and_then(|v| v.first()) {
                 let again = m.get_lock_instance(&QueryID(q));
                 checks += 1;
                 if !same_lock(&first.inst, &again) {
@@ -82,6 +88,17 @@ fn history(rng: &mut Rng, cap: u64, steps: usize) -> u64 {
             }
         }
     }
+    // boundedness: release everything, let ordinary traffic pass, then count what the table still holds
+    held.clear();
+    for _ in 0..(cap * 3 + 200) { let other = m.get_lock_instance(&QueryID(fresh)); fresh += 1; drop(other); }
+    let mut resident = 0usize;
+    for q in 0..=(base_q + nq) { if is_resident(&m, &QueryID(q)) { resident += 1; } }
+    for id in 1_000_000u64..fresh { if is_resident(&m, &QueryID(id)) { resident += 1; } }
+    checks += 1;
+    let bound = cap as usize + 2 * 33 + 8;
+    if resident > bound {
+        report_found("the lock table does not stay bounded: locks that were held once are never released from the table", &log[log.len().saturating_sub(40)..].join("; "), &format!("{resident} locks resident, none held, capacity {cap}"), &format!("<= {bound}"));
+    }
     checks
 }
 
@@ -90,7 +107,7 @@ fn main() {
     let mut rng = Rng(seed.wrapping_mul(0x9E3779B97F4A7C15) ^ 0xC16_10C);
     let mut n = 0u64;
     for cap in [1u64, 2, 8, 32] {
-        for _ in 0..6 { n += history(&mut rng, cap, 400); }
+        for _ in 0..4 { n += history(&mut rng, cap, 1600); }
     }
     report_none(n);
 }
